@@ -23,6 +23,7 @@ import (
 	_ "verifengine/props/c15"
 	_ "verifengine/props/c16"
 	_ "verifengine/props/c17"
+	_ "verifengine/props/c18"
 	_ "verifengine/props/c19"
 )
 
